@@ -751,9 +751,20 @@ func TestVerifC09History(t *testing.T) {
 	if h == nil {
 		t.Skip("VERIF_OUT not set")
 	}
+	// the package's own test init() has registered mid + batch already; re-register everything so that the chains run in
+	// PRODUCTION order (plugins_profile.go: cpunormalization first — its Prepare creates the node's annotation map that
+	// batchresource's Prepare writes the origin annotation into)
+	for _, name := range []string{midresource.PluginName, batchresource.PluginName, cpunormalization.PluginName, "C09RatioStub"} {
+		framework.UnregisterSetupExtender(name)
+		framework.UnregisterNodePreUpdateExtender(name)
+		framework.UnregisterNodePrepareExtender(name)
+		framework.UnregisterNodeStatusCheckExtender(name)
+		framework.UnregisterNodeMetaCheckExtender(name)
+		framework.UnregisterResourceCalculateExtender(name)
+	}
 	addPlugins(func(s string) bool {
 		return s == midresource.PluginName || s == batchresource.PluginName || s == cpunormalization.PluginName
-	}) // idempotent
+	})
 	framework.RegisterResourceCalculateExtender(func(string) bool { return true }, &c09hRatioStub{}) // last in the chain
 	scheme := runtime.NewScheme()
 	_ = clientgoscheme.AddToScheme(scheme)
